@@ -8,6 +8,8 @@ import ClusterVerif.Lemmas.C18SyncClusterC
 import ClusterVerif.Lemmas.C18SyncClusterR
 import ClusterVerif.Model.C18Inventory
 import ClusterVerif.Model.C18ChanOps
+import ClusterVerif.Model.C18SyncOps
+import ClusterVerif.Model.C18Torn
 import ClusterVerif.Lemmas.C18SyncMoreA
 import ClusterVerif.Lemmas.C18SyncMoreB
 import ClusterVerif.Lemmas.C18SyncMoreR
@@ -552,6 +554,72 @@ other threads did to the channel -/
 theorem default_never_blocks {P : List Code} {cfg : Cfg} {s t pc : Nat} {ins : Instr}
     (h0 : panicCode s = 0) (hi : instrAt P cfg s t = some ins) (hd : ins.dflt = some pc) :
     ∃ a, (Sync.step P cfg s t a).isSome = true := dflt_never_blocks h0 hi hd
+
+/-- ROUND 8c — receives, `<-ctx.Done()` arms, WaitGroup calls and go statements of the anchored files against the transcribed
+programs (`Model/C18SyncOps.lean`): every row of the regenerated `Gen.syncOps` is a known site with the recorded multiplicity,
+and where a program transcribes it the thread has the operation in the shape of the row's class (arm of a select without default /
+with default / plain statement). A new or dropped receive, `Done()` arm, `wg.Add/Done/Wait` or go statement, one moved into or
+out of a `select`, a changed `Add` argument: this fails (closed) — a rewrite that keeps these operations does not. -/
+theorem gen_sync_ops_match_model : syncOpsOK Gen.syncOps = true := by decide +kernel
+
+/-- not vacuous: 68 rows today, 29 of the 50 sites are tied to an instruction of a program (the others are reviewed with a reason) -/
+theorem gen_sync_ops_nonempty : 60 ≤ Gen.syncOps.length ∧ 25 ≤ modelledSites := by decide +kernel
+
+/-- the stateless tracker never calls `spt.wg.Add`: `spt.wg.Wait()` in `Shutdown` waits for nobody — the fact behind
+"wg 0 = `spt.wg` (never Added)" of `progA` / `progT` (the workers are NOT awaited by `Shutdown`; they leave through `ctx.Done()`) -/
+theorem tracker_wg_never_added : noWgAdd Gen.syncOps "pintracker/stateless" = true := by decide +kernel
+
+/-- facts realistic wrong edits would produce are rejected: `Shutdown` without `wg.Wait()` (row dropped), `ready()` calling
+`c.Shutdown` without `go` (one go statement less), `opWorker` without its `ctx.Done()` arm, `watchPeers` receiving the ticker in a
+plain statement, `run()` with `Add(2)` -/
+example : syncOpsOK (Gen.syncOps.filter fun o => !(o.1 == ".|Cluster.Shutdown" && o.2.1 == "wgWait")) = false ∧
+    syncOpsOK (Gen.syncOps.eraseP fun o => o.1 == ".|Cluster.ready" && o.2.1 == "go") = false ∧
+    syncOpsOK (Gen.syncOps.filter fun o => !(o.1 == "pintracker/stateless|Tracker.opWorker" && o.2.1 == "done")) = false ∧
+    syncOpsOK (Gen.syncOps ++ [(".|Cluster.watchPeers", "recv", "ticker.C", "plain")]) = false ∧
+    syncOpsOK (Gen.syncOps ++ [(".|Cluster.run", "wgAdd", "c.wg", "2")]) = false := by decide +kernel
+
+/-- Prop reading of the shape check for a `select` row: the thread has an instruction WITHOUT default branch, with at least two
+alternatives, one of which is the operation — i.e. the operation can be pre-empted by a sibling arm, and blocks when none is enabled -/
+theorem countShaped_select_sound (code : Sync.Code) (w : Sync.Op) (h : 1 ≤ countShaped code w "select") :
+    ∃ ins ∈ code, ins.dflt = none ∧ 2 ≤ ins.alts.length ∧ ∃ a ∈ ins.alts, opIs w a.op = true := by
+  unfold countShaped at h
+  have hne : (code.filter fun ins => shapeOK "select" ins && ins.alts.any fun a => opIs w a.op) ≠ [] := by
+    intro h0; rw [h0] at h; exact absurd h (by decide)
+  obtain ⟨ins, hins⟩ := List.exists_mem_of_ne_nil _ hne
+  have hm := List.mem_filter.mp hins
+  have hb := hm.2
+  simp only [Bool.and_eq_true] at hb
+  obtain ⟨hs, ha⟩ := hb
+  have hs' : (ins.dflt.isNone && Nat.ble 2 ins.alts.length) = true := by
+    simpa [shapeOK] using hs
+  simp only [Bool.and_eq_true] at hs'
+  obtain ⟨a, hain, hop⟩ := List.any_eq_true.mp ha
+  refine ⟨ins, hm.1, ?_, Nat.le_of_ble_eq_true hs'.2, a, hain, hop⟩
+  cases hd : ins.dflt with
+  | none => rfl
+  | some _ => rw [hd] at hs'; exact absurd hs'.1 (by simp)
+
+example : 1 ≤ countShaped (Sync.Progs.tWorker 1) (.done 0) "select" := by decide
+
+/-- ROUND 8c — "never tears results" at model level (`Model/C18Torn.lean`): a getter that copies the fields of a guarded value
+inside ONE critical section returns fields of one value — the one present when it acquired the mutex, which is whole if writers
+leave only whole values at their `unlock`; holds for EVERY accepted continuation (writers may write only while holding the mutex:
+the discipline `gen_table_disciplined` establishes). -/
+theorem getter_copy_under_lock_whole (Whole : List Nat → Prop) (g : Nat) (s s' : Torn.TS) (evs : List Torn.Ev)
+    (hfree : s.holder = none) (hinv : Whole s.cell) (hq : Torn.quiet g evs = true)
+    (hr : Torn.run s (.lock g :: evs) = some s') :
+    Whole s'.cell ∧ ∀ p ∈ Torn.readsOf g { s with holder := some g } evs, p.2 = s.cell.getD p.1 0 :=
+  Torn.copy_under_lock_whole Whole g s s' evs hfree hinv hq hr
+
+/-- the alternative refuted: reading the fields without the mutex returns a value nobody stored -/
+theorem getter_without_lock_tears :
+    (Torn.run ⟨[0, 0], none⟩ Torn.tornTrace).isSome = true ∧
+      Torn.readsOf 2 ⟨[0, 0], none⟩ Torn.tornTrace = [(0, 1), (1, 0)] := Torn.unlocked_getter_tears
+
+/-- tie to the regenerated escape facts: the getters the statement above is about exist in the table (kind `copy` / `value`:
+`Cluster.Alerts`, `Store.Distribution`, `OperationTracker.OpContext`, `OperationTracker.Status` today) and nothing escapes raw -/
+theorem gen_copy_getters_present :
+    4 ≤ (Gen.escapes.filter fun e => e.kind == .copy || e.kind == .value).length ∧ escapesOK Gen.escapes = true := by decide
 
 /-- the table is not vacuous -/
 theorem gen_table_nonempty : 60 ≤ Gen.accesses.length ∧ 5 ≤ Gen.edges.length ∧ 15 ≤ Gen.guards.length := by decide
